@@ -1,5 +1,6 @@
 \* DiffTouch, the code as it is: every edit script of <= MaxOps ops x block placement x layout x M kind
 CONSTANTS
+  GenSparse = FALSE
   GenLen = 0
   MaxOps = 5
   MaxBlocks = 1
